@@ -33,6 +33,20 @@ CHECKS = {
              "applied to 1-D spectra.",
         technique="TLA+ bounds/termination model of the C routine + sanitizer-monitored replay; TLA+ outcome table + replay",
         ref="§4 C20", engine="tlc"),
+    "C19": dict(
+        text="Tracking.tla models one action per time step shaped like tracking.py (greedy threshold matching in partition "
+             "order with an availability list, then id propagation); the clauses of the property (missing marker, uniqueness "
+             "within a step, ids = 0..N-1 issued in order of appearance, carried only within the previous partition's "
+             "thresholds, retired ids never return, reported count) are invariants checked by TLC over all histories of bounded "
+             "length on alphabets built around seam crossings, threshold edges, sea-gap decisions and exact distance ties. "
+             "Every emitted behaviour is replayed into match_consecutive_partitions, np_track_partitions (thresholds realised "
+             "through dt, wind speed and source distance) and track_partitions with two sites; random long histories recorded "
+             "from the implementation are validated step by step by TrackingTrace.tla.",
+        note="Trusted: TLC; thresholds are placed off the frequency lattice so strict comparisons are exact; |sea threshold| < "
+             "swell threshold (normalisation); exact distance ties are nondeterministic in the spec. ptm1_track is covered "
+             "through track_partitions only.",
+        technique="TLA+ step model of the tracker + TLC invariants + behaviour replay and trace validation",
+        ref="§4 C19", engine="tlc"),
 }
 
 NOT_YET = "check not yet built in this round (see DESIGN.md §4 for the planned TLA+ model); not claimed"
